@@ -18,7 +18,7 @@ Compared, real object vs model at IEEE doubles:
   autoreg-conditioner conditioner output, from raw weights + model masks AND from the unwrapped weights (plain MLP), 1e-12
   autoreg-tparams     unwrapped transformer parameters per coordinate (loc, scale / x_pos, y_pos, derivatives), 1e-9
   autoreg-layer-tie   transform, inverse, transform_and_log_det, inverse_and_log_det: values and log-dets, 1e-9 relative
-                      (+ 64 x the one-sided change of the implementation's own output over the two float neighbours of the input, which is
+                      (+ 64 x the one-sided change of the implementation's own output when the input moves by 8 ulps, which is
                       ~1e-15 except in ill-conditioned spline bins)
 on random inputs and boundary-directed ones (per transformed coordinate: spline interval ends, their float neighbours, every
 knot of that coordinate's own spline, far outside; affine: 0, +-1, +-1e4, the preimage of 0).
@@ -302,17 +302,19 @@ def make_eval(cfg, obj, want_jac):
                    rtl=o.transform_and_log_det(i2, c)[1])
         # sensitivity of each compared method to one ulp of its input (an ill-conditioned spline bin -- softmax_adjust 0 and a wide
         # raw spread give bins of width 1e-8 -- amplifies the last-bit differences between libm and XLA in the knots)
-        fp, flp = o.transform_and_log_det(jnp.nextafter(x, jnp.inf), c)
-        fm, flm = o.transform_and_log_det(jnp.nextafter(x, -jnp.inf), c)
-        ip, ilp = o.inverse_and_log_det(jnp.nextafter(y, jnp.inf), c)
-        im, ilm = o.inverse_and_log_det(jnp.nextafter(y, -jnp.inf), c)
+        # (8 ulps each way, not 1: at the ulp scale the maps are step functions and a 1-ulp probe can sit on a plateau)
+        up8 = lambda v, sgn: v + sgn * 8 * jnp.maximum(jnp.abs(v) * 2.0 ** -52, 1e-300)
+        fp, flp = o.transform_and_log_det(up8(x, 1), c)
+        fm, flm = o.transform_and_log_det(up8(x, -1), c)
+        ip, ilp = o.inverse_and_log_det(up8(y, 1), c)
+        im, ilm = o.inverse_and_log_det(up8(y, -1), c)
         # both one-sided changes: the larger one is the sensitivity (at a knot the two bins differ a lot); at a kink (an interval
         # end of a spline, where the log-det jumps) only the smaller one is, the other side being the jump itself
         mn = lambda p, m, v: jnp.stack((jnp.minimum(jnp.abs(p - v), jnp.abs(v - m)), jnp.maximum(jnp.abs(p - v), jnp.abs(v - m))))
         out.update(fd=mn(fp, fm, f2), fld=mn(flp, flm, fl), idd=mn(ip, im, i2), ild=mn(ilp, ilm, il))
         # conditioning of the returning map, measured on the two float neighbours of the intermediate point
-        out["rtd"] = jnp.abs(o.inverse(jnp.nextafter(f, jnp.inf), c) - o.inverse(jnp.nextafter(f, -jnp.inf), c))
-        out["rt2d"] = jnp.abs(o.transform(jnp.nextafter(i, jnp.inf), c) - o.transform(jnp.nextafter(i, -jnp.inf), c))
+        out["rtd"] = jnp.abs(o.inverse(up8(f, 1), c) - o.inverse(up8(f, -1), c))
+        out["rt2d"] = jnp.abs(o.transform(up8(i, 1), c) - o.transform(up8(i, -1), c))
         if want_jac:
             out["J"] = jax.jacobian(lambda v: o.transform(v, c))(x)
         return out
@@ -463,8 +465,18 @@ def _near_end(cfg, x):
     if cfg["t"]["kind"] != "rqs":
         return False
     lo, hi = interval_of(cfg["t"])
-    pts = [lo, hi, np.nextafter(lo, -np.inf), np.nextafter(lo, np.inf), np.nextafter(hi, -np.inf), np.nextafter(hi, np.inf)]
-    return bool(np.any(np.isin(np.ravel(np.asarray(x, dtype=float)), pts)))
+    x = np.ravel(np.asarray(x, dtype=float))
+    return bool(np.any(np.abs(x - lo) <= 32 * np.spacing(abs(lo))) or np.any(np.abs(x - hi) <= 32 * np.spacing(abs(hi))))
+
+
+def _slacks(cfg, r, k, direction, x):
+    """Absolute slack for values / log-det of case k of the evaluated batch r: 64 x the change of the implementation's own output
+    when its input moves by 8 ulps (the larger of the two sides; next to a kink -- an interval end -- the smaller one)."""
+    if direction == "fwd":
+        side = 0 if _near_end(cfg, x) else 1
+        return 64 * _fin(r["fd"][k][side]), 64 * _fin(r["fld"][k][side])
+    side = 0 if _near_end(cfg, x) or _near_end(cfg, r["i"][k]) else 1
+    return 64 * _fin(r["idd"][k][side]), 64 * _fin(r["ild"][k][side])
 
 
 def _at_clip_tie(cfg, x, y):
@@ -693,13 +705,10 @@ def run_units(ctx, theorems=None, n_maf=None, n_coup=None, batch=None):
                     _report(ctx, up, cfg, init, raws, biases, obj, "fwd", x, c, f"unwrapped transformer parameters: model {m_tp[:200]} != implementation {np.ravel(tp).tolist()}",
                             m_tp, np.ravel(tp).tolist(), oracle)
                 checks = (("fwd", m_f, r["f"][k], None), ("fwdld", m_fl, r["f2"][k], float(r["fl"][k])))
-                side = 0 if _near_end(cfg, x) else 1
-                sv, sl = 64 * _fin(r["fd"][k][side]), 64 * _fin(r["fld"][k][side])
             else:
                 m_i, m_il = outs[at: at + 2]
                 checks = (("inv", m_i, r["i"][k], None), ("invld", m_il, r["i2"][k], float(r["il"][k])))
-                side = 0 if _near_end(cfg, x) or _near_end(cfg, r["i"][k]) else 1
-                sv, sl = 64 * _fin(r["idd"][k][side]), 64 * _fin(r["ild"][k][side])
+            sv, sl = _slacks(cfg, r, k, direction, x)
             for method, line, iy, ild in checks:
                 nontriv = bnd or (ild is not None and np.isfinite(ild) and abs(ild) > 1e-3) or (ild is None)
                 ut.count(key + (method,), nontrivial=bool(nontriv), tag=f"{tag0}:{method}:{'boundary' if bnd else 'random'}")
@@ -801,7 +810,9 @@ def replay_case(ctx, rep):
     idx = {"fwd": 0, "fwdld": 1, "inv": 0, "invld": 1}[method]
     my, ml = parse_yl(outs[idx])
     ey, el = eager(obj, method, x, c)
-    agree = my != "ERR" and vclose(my, ey, 1e-9) and close(ml, el, 1e-9)
+    r = make_eval(cfg, obj, False)(x[None, :], x[None, :], None if c is None else c[None, :])
+    sv, sl = _slacks(cfg, r, 0, direction, x)
+    agree = my != "ERR" and vclose(my, ey, 1e-9, sv) and (close(ml, el, 1e-9) or (ml is not None and el is not None and abs(ml - el) <= sl))
     e1 = roundtrip_errors(obj, direction, x, c)
     xs = x if direction == "fwd" else eager(obj, "inv", x, c)[0]
     e2 = autodiff_errors(cfg, obj, xs, c)
